@@ -27,7 +27,7 @@
 (* the spec says the step did and what the code logged while doing it.  On top of that:         *)
 (*    init   -> the container was created with the scenario's constants                         *)
 (*    quiet  -> LibQuiet with exactly the logged blocked set                                    *)
-(*    ret    -> that call has returned in the spec (for reads: with the spec's cell value)      *)
+(*    ret    -> that call has returned in the spec, with the value the spec's step returns      *)
 (*    swapcb -> the callback saw the spec's cell value                                          *)
 (*    valid  -> the validator saw the spec's cell value                                         *)
 (* A mismatch is DRIFT: the code no longer takes the steps the spec describes (or the spec is   *)
@@ -123,9 +123,22 @@ DiffName == IF ps.bad # ps2.bad THEN "bad" ELSE IF ps.cell # ps2.cell THEN "cell
 Differs == "monitor state after the step differs from the recorded events (first differing field: " \o DiffName \o ")"
 
 \* a recorded API event: through the monitor function into ps2
-Rec(s) == ps2' = s /\ l' = l + 1 /\ UNCHANGED <<vars, drift, live, sseq, val0>>
+\* (`bad` only grows and the two records must agree at the end of the step, so a condition flagged
+\* by a recorded event that the spec's step did not flag is a drift at exactly that event)
+Rec(s) == IF s.bad \subseteq ps.bad
+          THEN ps2' = s /\ l' = l + 1 /\ UNCHANGED <<vars, drift, live, sseq, val0>>
+          ELSE Drift("the monitor flags this recorded event, the spec's step flags nothing")
 
 Returned(id) == id \in Ids(ps) /\ ps.calls[id].st = "returned"
+\* the value the spec's step returned from call id (reads and swaps happen in the step itself, so
+\* val0 / val are the cell before / after it; a waiter returns the value it sampled = val)
+OpOf(id) == Prog[id \div 100][id % 100]
+RetVal(id, res) ==
+    LET o == OpOf(id) IN
+    CASE o.op = "set" -> -1
+      [] o.op = "swap" -> val0 + o.d
+      [] o.op \in {"get", "swapnil"} -> val
+      [] o.op = "wait" -> IF res # "ok" \/ o.kind = "empty" THEN -1 ELSE val
 
 TStep ==
     /\ l <= Len(Trace)
@@ -152,7 +165,7 @@ TStep ==
          [] e.ev = "valid" ->
               IF e.v = val0 THEN Rec(FValid(ps2, e.xid, e.v, e.res)) ELSE Drift("validator did not see the spec's value")
          [] e.ev = "ret" ->
-              IF Returned(e.xid) /\ (ps.calls[e.xid].op \in {"get", "swapnil"} => e.val = val)
+              IF Returned(e.xid) /\ e.val = RetVal(e.xid, e.res)
               THEN Rec(FRet(ps2, e.xid, e.res, e.val))
               ELSE Drift("return not explained by the spec")
          [] e.ev = "quiet" ->
